@@ -43,9 +43,11 @@ class PyCodeMapper(LokiStringifyMapper):
         return 'True' if bool(expr.value) else 'False'
 
     def map_float_literal(self, expr, enclosing_prec, *args, **kwargs):
-        return str(expr.value)
+        # Fortran's double-precision exponent letter (``1.0d0``) is not valid in Python
+        return str(expr.value).lower().replace('d', 'e')
 
-    map_int_literal = map_float_literal
+    def map_int_literal(self, expr, enclosing_prec, *args, **kwargs):
+        return str(expr.value)
 
     def map_cast(self, expr, enclosing_prec, *args, **kwargs):
         _type = SymbolAttributes(BasicType.from_fortran_type(expr.name), kind=expr.kind)
